@@ -385,6 +385,7 @@ def C16(ctx):
     m = model(ctx.repo)
     pyshape.rule_kmeans(ctx, m)
     misc.rule_identity(ctx, m, ['dtaidistance.clustering.kmeans', 'dtaidistance.clustering.medoids'])
+    misc.rule_mapping_fields(ctx, m, ['dtaidistance.clustering.kmeans', 'dtaidistance.clustering.medoids'])
     with ctx.scoped(has('kmeans')):
         sig.rule_py_to_pyx(ctx, m, ['dtaidistance.clustering.kmeans'])
     # "nearest mean" is decided with dtw_cc.distance / distance_ndim: their option domains (penalty, max_step, max_dist vs. accumulated cost)
